@@ -93,6 +93,19 @@ CHECKS["C11"] = dict(
           "closure of a circulation-pump loop (whole-network sum with an unspecified discretisation tolerance)."),
     ref="DESIGN.md section 4 C11")
 
+CHECKS["C09"] = dict(
+    engine="E2",
+    technique="contract-based deductive verification: relational lemmas over the spec functions the kernels are proved equal to (C02/C10), plus VCs from the AST of get_basic_branch_results, ConstFlow.create_pit_node_entries and the flow-direction switch, discharged by z3",
+    text=("Proved: odd symmetry of the liquid and gas residuals under from/to reversal, even Reynolds number, symmetric mean pressure, "
+          "invariance of the liquid residual under a common pressure shift, telescoping of consecutive liquid sections (two sections, "
+          "series = one pipe, induction step); mf_to = -mf_from and the other result columns of get_basic_branch_results; the per-row "
+          "load term nan_to_num(mdot)*in_service*scaling*sign with Source.sign = -Sink.sign grouped by junction (additivity, "
+          "source = negative sink, out-of-service = absent); the thermal direction switch is the sign of the mass flow, set before its first use."),
+    note=(TB + "A1/A3; the lemmas speak about the equation systems: equality of results additionally needs uniqueness of the solution and "
+          "holds up to the tolerances of C05 (stated, not proved). Expansion of a pipe into sections (np.repeat/np.insert code) and "
+          "closed-valve/out-of-service = absence belong to the connectivity / pit-construction obligations (engine E3)."),
+    ref="DESIGN.md section 4 C09")
+
 NOT_APPLICABLE = {
     "C08": "uniqueness of the solution of the nonlinear system within tolerances and convergence of damped Newton in floating point: a whole-history/analytic property, no pre/post contract within reach expresses it (DESIGN.md section 5)",
     "C15": "the save/load round trip is the behaviour of pandapower/pandas/json/pickle/scipy object state; a contract strong enough would have to assume the property (DESIGN.md section 5)",
